@@ -233,6 +233,9 @@ pub fn outcome_of(s: &str) -> PStatus {
 
 impl Sc {
     pub fn instantiate_msg(cfg: &Cfg, staker: &str, collector: &str, validators: &[String], monitors: &[String], treasury: Option<&str>, oracle: Option<&str>, s: &str) -> Value {
+        // a deployment that names no protocol-chain account at all may spell the protocol prefix in capitals
+        // (accepted, and kept in lower case, by the validation): the same chain is meant
+        let proto_prefix = if treasury.is_none() && oracle.is_none() && monitors.is_empty() { cfg.prefix.to_uppercase() } else { cfg.prefix.clone() };
         json!({
             "native_chain_config": {
                 "account_address_prefix": cfg.native_prefix,
@@ -244,7 +247,7 @@ impl Sc {
                 "reward_collector_address": collector,
             },
             "protocol_chain_config": {
-                "account_address_prefix": cfg.prefix,
+                "account_address_prefix": proto_prefix,
                 "ibc_token_denom": s,
                 "ibc_channel_id": cfg.channel,
                 "minimum_liquid_stake_amount": cfg.min_stake.to_string(),
